@@ -90,7 +90,7 @@ def check_line(ctx, ircmsgs, line, mout, kind):
 
 def gen_msg(rng):
     pool = ['a', 'B', 'x y', ':', ' ', '::', 'é', '@', ';', '=', '\\', 'a:b', ' :', '', '\t', 'zz\\s', '\\', 'a\\']
-    word = lambda: rng.choice(['PRIVMSG', 'PING', '001', 'a', 'CAP', 'é', '@x', 'x@', 'a:b', 'a;', 'a='])
+    word = lambda: rng.choice(['PRIVMSG', 'PING', '001', 'a', 'CAP', 'é', '@x', 'x@', 'a:b', 'a;', 'a=', 'P\xa0', '\tQ', 'R\x0c'])
     tags = {}
     if rng.random() < 0.5:
         for _ in range(rng.randint(1, 3)):
@@ -100,7 +100,9 @@ def gen_msg(rng):
             tags[k] = v
     prefix = rng.choice(['', '', 'nick!user@host', 'irc.server', 'é!u@h', 'n'])
     nargs = rng.choice([0, 0, 1, 1, 2, 3, 5, 15])
-    args = [rng.choice(['#chan', 'nick', 'a', 'é', 'x;y', 'a=b', '@a', 'a:b', 'a:']) for _ in range(max(0, nargs - 1))]
+    args = [rng.choice(['#chan', 'nick', 'a', 'é', 'x;y', 'a=b', '@a', 'a:b', 'a:',
+                        # whitespace other than the ASCII space is ordinary text in a middle argument
+                        '#chan\xa0', '\xa0x', 'a\t', '\tb', '\x0c', '\x1f#c\x1f', '\u2003x', 'y\u2028', '\x0b', 'z\x85']) for _ in range(max(0, nargs - 1))]
     if nargs:
         args.append(rng.choice(pool + ['hello world', ':) hi', ' lead', 'trail ', 'a :b', ':', '']))
     return {'tags': tags, 'prefix': prefix, 'command': word(), 'args': args}
